@@ -568,6 +568,12 @@ func main() {
 		if err := json.Unmarshal(raw, &c); err != nil {
 			kit.Harness("bad case: %v", err)
 		}
+		if c.Kind == "real" {
+			if v, _ := checkReal(filepath.Join(root, fmt.Sprintf("realreplay%d", atomic.AddInt64(&rseq, 1))), c.Mods); v != "" {
+				return []kit.V{{Key: "real-server " + c.Mods[0].String(), What: v, Case: c}}
+			}
+			return nil
+		}
 		if c.Kind == "directory" {
 			// The package may carry state from one server to the next in the same
 			// process (a package-level pool or cache): a case that needs such history
@@ -707,25 +713,14 @@ func main() {
 	// a real Server over loopback for a sample of directories
 	real := 0
 	for i := 0; i < len(dirs); i += len(dirs)/25 + 1 {
-		d := filepath.Join(root, "real")
-		writeDir(d, dirs[i])
-		srv, err := goproxytest.NewServer(d, "localhost:0")
-		if err != nil {
-			r.Set("real_server_note", "cannot listen on loopback: "+err.Error())
+		v, note := checkReal(filepath.Join(root, "real"), dirs[i])
+		if note != "" {
+			r.Set("real_server_note", note)
 			break
 		}
-		m := dirs[i][0]
-		resp, err := http.Get(srv.URL + strings.TrimPrefix(reqURL(m.Path, m.Vers, "mod"), "/mod"))
-		if err != nil {
-			srv.Close()
-			r.Set("real_server_note", "loopback GET failed: "+err.Error())
+		if v != "" {
+			r.Violation("real-server "+dirs[i][0].String(), v, kase{Kind: "real", Mods: dirs[i]})
 			break
-		}
-		body, _ := io.ReadAll(resp.Body)
-		resp.Body.Close()
-		srv.Close()
-		if resp.StatusCode != 200 || string(body) != modOf(m) {
-			r.Violation("real-server "+m.String(), fmt.Sprintf("real Server: GET .mod of %s = %d %q, stored %q", m, resp.StatusCode, body, modOf(m)), kase{Kind: "directory", Mods: dirs[i]})
 		}
 		real++
 	}
@@ -745,6 +740,32 @@ func main() {
 	r.Set("explanation", "(a) every single module version from 4 paths (plain, mixed case, /v2 suffix, element starting with v) x 5 versions (release, pre-release, +incompatible, invalid-for-path v2.0.0, pseudo) x 3 layouts x all 32 subsets of 5 files, and every pair of (path, version) with layouts and file sets varied systematically (thorough: triples); all stored .info/.mod/.zip, list per path, and a fixed menu of near-misses per stored version. (b) 9 scenarios of 2-3 concurrent first requests on a fresh server, every schedule with <= 5 preemptions (2 requests) / <= 3 (3 requests) (thorough 7 / 4) at the sync.Map/Mutex/atomic operations of par.Cache; each response must equal the one obtained alone; states = scheduling steps visited")
 	r.Assume("requests whose version part is all lower-case hex are resolved as commit hashes by the handler and are not generated as near-misses (the statement defines nothing for them); module paths containing '_' are not representable in the directory naming scheme and are not generated")
 	r.Finish()
+}
+
+// checkReal starts a real Server (NewServer, loopback listener) over mods and
+// fetches the first module's .mod through it. note is set when the environment
+// has no loopback interface (nothing to judge).
+func checkReal(d string, mods []modVer) (viol, note string) {
+	writeDir(d, mods)
+	srv, err := goproxytest.NewServer(d, "localhost:0")
+	if err != nil && strings.Contains(err.Error(), "cannot listen") {
+		return "", "cannot listen on loopback: " + err.Error()
+	}
+	if err != nil || srv == nil {
+		return fmt.Sprintf("NewServer over a directory holding %v fails: %v", mods, err), ""
+	}
+	defer srv.Close()
+	m := mods[0]
+	resp, err := http.Get(srv.URL + strings.TrimPrefix(reqURL(m.Path, m.Vers, "mod"), "/mod"))
+	if err != nil {
+		return fmt.Sprintf("real Server over %v: GET .mod of %s fails: %v", mods, m, err), ""
+	}
+	body, _ := io.ReadAll(resp.Body)
+	resp.Body.Close()
+	if resp.StatusCode != 200 || string(body) != modOf(m) {
+		return fmt.Sprintf("real Server: GET .mod of %s = %d %q, stored %q", m, resp.StatusCode, body, modOf(m)), ""
+	}
+	return "", ""
 }
 
 func dirKey(v string, mods []modVer) string {
